@@ -1,5 +1,6 @@
 import Irismod.Props.Tie_Service
 open Irismod.Props.Tie Irismod.Gen.PureService Irismod.Sdk
+#print axioms service_effects_pinned
 #print axioms service_guards_pinned
 #print axioms service_all_translated
 #print axioms service_translated_pinned
